@@ -125,7 +125,16 @@ func runProperty(cfg *PropConfig, tier string, seed int) *propResult {
 	for k, fc := range E.contracts.Funcs {
 		if fc.Opts["trusted"] == "true" {
 			res.trusted = append(res.trusted, k)
+			continue
 		}
+		for _, en := range fc.Ensures {
+			if en.Kind == "axiom" {
+				res.trusted = append(res.trusted, k+" (axiom clause: "+en.Text+")")
+			}
+		}
+	}
+	for f := range E.contracts.Frozen {
+		res.trusted = append(res.trusted, "frozen field "+f+" (assumed not written after construction)")
 	}
 	sort.Strings(res.trusted)
 	quickMs, fullMs := 4000, 40000
